@@ -478,13 +478,28 @@ def run_R(case):
     fam = case["fit"]
     key0 = {"part": "refit", "family": fam}
     viol = []
+    mixed = None
+    if fam in ("hourly_ghi_then_plain", "hourly_plain_then_ghi"):
+        # one default-featured object: first a baseline with an irradiance column, then one without (and the other way round)
+        mixed, fam = fam, "hourly"
     fa = c02.baseline_frame(fam, 365, seed=0)
     fb = c02.baseline_frame(fam, 365, seed=5)
+    if mixed == "hourly_ghi_then_plain":
+        fa = c02.baseline_frame("hourly_solar", 365, seed=0)
+    if mixed == "hourly_plain_then_ghi":
+        fb = c02.baseline_frame("hourly_solar", 365, seed=5)
     if fam in ("daily", "billing"):
         fb = ds.daily_frame(start="2021-01-01", days=365, tz=ZONE, wseed=5, seed=5, noise=0.05, weekend_factor=0.7, hs=2.5, cs=0.4, base=60.0)
-    sets = reporting_sets(fam, case["tier"])[:4]
+    sets = reporting_sets("hourly_solar" if mixed == "hourly_plain_then_ghi" else fam, case["tier"])[:4]
     m = c02.new_model(fam)
-    c02.fit(fam, m, c02.make_baseline(fam, fa))
+    try:
+        c02.fit(fam, m, c02.make_baseline(fam, fa))
+        if mixed:
+            c02.fit(fam, copy.deepcopy(m), c02.make_baseline(fam, fb))
+    except Exception as exc:
+        return {"behaviour": [mixed or fam, "refit_raises"],
+                "violations": [{"clause": "refit_of_fitted_object_raises", "key": dict(key0, history=mixed or "same_columns", exc=type(exc).__name__),
+                                "detail": f"{type(exc).__name__}: {str(exc)[:200]}"}]}
     for _, d in sets:
         try:
             c02.predict(fam, m, d)
@@ -513,7 +528,9 @@ def run_R(case):
     loaded = type(m).from_json(doc)
     # ... and a model that came back from STORAGE (fitted on the first meter) and is then fitted on the second one
     stored_then_refitted = None
-    if fam != "caltrack":
+    # (not for the mixed-column histories: a model that comes back from storage carries the feature list in its settings, which is
+    # then the caller's explicit choice - it legitimately refuses a baseline without the column / ignores a new one)
+    if fam != "caltrack" and not mixed:
         try:
             first = c02.fit(fam, c02.new_model(fam), c02.make_baseline(fam, fa))
             stored_then_refitted = c02.fit(fam, type(first).from_json(first.to_json()), c02.make_baseline(fam, fb))
@@ -681,8 +698,8 @@ def cases_B(tier):
     if tier == "quick":
         names = ["daily_current", "daily_f32_spike", "daily_legacy", "daily_poorfit", "daily_unc_alpha0", "billing", "daily_fixed_offset", "billing_fixed_offset", "hourly", "hourly_solar", "hourly_robust", "hourly_bins", "hourly_supp", "caltrack", "caltrack_gappy"]
     out = [{"part": "B", "fit": n, "tier": tier, "depth": 3 if tier == "thorough" else 2} for n in names]
-    out += [{"part": "R", "fit": f, "tier": tier} for f in (("daily", "billing", "hourly", "caltrack") if tier == "quick" else
-                                                               ("daily", "billing", "hourly", "hourly_solar", "caltrack"))]
+    out += [{"part": "R", "fit": f, "tier": tier} for f in (("daily", "billing", "hourly", "caltrack", "hourly_ghi_then_plain", "hourly_plain_then_ghi") if tier == "quick" else
+                                                               ("daily", "billing", "hourly", "hourly_solar", "caltrack", "hourly_ghi_then_plain", "hourly_plain_then_ghi"))]
     return out
 
 
